@@ -833,13 +833,26 @@ func init() {
 				units = append(units, Unit{"VerifC08", []string{s, "order", "1111", s}})
 				units = append(units, Unit{"VerifC08", []string{s, "cross", "1111", s}}, Unit{"VerifC08", []string{s, "cross", "1000", s}})
 				units = append(units, Unit{"VerifC08", []string{";;;; reordering: false\n" + s, "order", "0101", s}})
+				// names the config does not know, accepted through the option or through a directive: the
+				// bookkeeping for them belongs to the compilation, not to the caller's config
+				und := strings.Replace(strings.Replace(s, "b0", "undefined_name", 1), "i0", "another_undefined", 1)
+				for _, opts := range []string{"1111", "0000"} {
+					units = append(units, Unit{"VerifC08", []string{und, "frozen", opts, s, "undef"}},
+						Unit{"VerifC08", []string{";;;; allow_undefined_variable: true\n" + und, "frozen", opts, s}})
+				}
+				units = append(units, Unit{"VerifC08", []string{und, "order", "1111", s, "undef"}})
+			}
+			for _, lit := range []string{"(and (> 2 1) (or false (= 1 1)))", "(if (= (+ 1 2) 3) (* 2 3) (/ 1 0))", "(or (and true (< 3 2)) (in 2 (1 2 3)))"} {
+				for _, d := range []string{";;;; optimize: false\n", ";;;; constant_folding: false, reordering: false\n", ";;;; allow_undefined_variable: true\n", ";;;; infix_notation: true\n", ""} {
+					units = append(units, Unit{"VerifC08", []string{d + lit, "nil", "1111", lit}})
+				}
 			}
 			units = append(units, Unit{"VerifC08Copy", []string{"copy"}}, Unit{"VerifC08Copy", []string{"extend"}})
 			return units
 		},
-		Reach: []string{"compiled-frozen", "compile-ok", "compile-error", "recompiled", "cross", "copied"},
+		Reach: []string{"compiled-frozen", "compile-ok", "compile-error", "recompiled", "cross", "copied", "nil-config"},
 		Bounds: func(tier string) map[string]interface{} {
-			return map[string]interface{}{"config": "2-4 entries per map (symbolic constant values and costs), StatelessOperators with spare capacity and an unregistered name in front; a second config using the same names for other contents (alternating compilations)", "sources": "6 shapes, two of them calling custom operators on constants (+ all shapes ≤1 internal node thorough) × {no directive, 4 directive texts, 3 invalid directives, 5 malformed variants}",
+			return map[string]interface{}{"config": "2-4 entries per map (symbolic constant values and costs), StatelessOperators with spare capacity and an unregistered name in front; a second config using the same names for other contents (alternating compilations)", "nil_config": "Compile(nil, …) after a compilation with each of 5 directive texts; CopyConfig(nil) twice", "undefined_names": "each shape with two names the config does not know, accepted by option and by directive", "sources": "6 shapes, two of them calling custom operators on constants (+ all shapes ≤1 internal node thorough) × {no directive, 4 directive texts, 3 invalid directives, 5 malformed variants}",
 				"map_orders": "every permutation of maps with ≤3 entries and every rotation of larger ones, for each of the five config maps, in the second compilation"}
 		},
 		Rule:        "one unit per (source text, variant, options); a state is one symbolic path (map iteration orders are explicit nondeterministic choices)",
